@@ -27,6 +27,8 @@ func runC14(c *Ctx) {
 	c14ReturnsStored(c)
 	c14Keywords(c)
 	c14FastPath(c)
+	c14PeekHelpers(c)
+	c14TriviaStep(c)
 	c14RangeTables(c)
 	c14ClassTables(c)
 	c14Flag(c)
